@@ -149,3 +149,98 @@ func init() {
 		return []sched.Failure{{Sig: fmt.Sprintf("%s / rise=%d fall=%d", o, c.Rise, c.Fall), Detail: d}}
 	}})
 }
+
+// ---------------------------------------------------------------------------
+// C15 (S) monitor loop: the real Monitor.Start() loop with its ticker on the virtual clock, its fan-out of
+// checks over a channel and a wait group, two hosts and a scripted checker.
+//
+// alphabet  per tick and host an outcome ok|fail: every sequence of 5 ticks for host a (host b always the
+//           opposite of a's previous outcome), thresholds rise=1 fall=1 and rise=2 fall=2 (INPUT)
+// bound     P, F (see Setup); one tick per virtual second
+// oracle    after every tick: each host's flag and the usable view follow the hysteresis rule of the
+//           sequential check (flip only after > threshold consecutive contrary results)
+// ---------------------------------------------------------------------------
+
+type perHost struct{ next map[string]bool }
+
+func (s *perHost) Check(addr string, timeout time.Duration) error {
+	if s.next[addr] {
+		return nil
+	}
+	return errors.New("scripted failure")
+}
+
+func c15loopBody() {
+	thr := uint32(1 + sched.Choose(sched.ClsInput, 2, "threshold"))
+	bits := sched.Choose(sched.ClsInput, 32, "outcomes")
+	a, b := hostpkg.New("10.0.0.1:1"), hostpkg.New("10.0.0.2:1")
+	set := hostpkg.NewSet(a, b)
+	chk := &perHost{next: map[string]bool{}}
+	cfg := &pbhc.HealthCheck{Interval: time.Second, Timeout: time.Second, RiseThreshold: thr, FallThreshold: thr,
+		Checker: &pbhc.HealthCheck_TcpChecker{TcpChecker: &pbhc.TCPChecker{}}}
+	m, err := NewMonitor(cfg, set, log.New("verif"))
+	if err != nil || m == nil {
+		sched.Fail("harness-newmonitor", fmt.Sprint(err))
+	}
+	m.checker = chk
+	m.Start()
+	sched.WaitQuiescent()
+	type st struct {
+		healthy bool
+		run     int
+	}
+	state := map[*hostpkg.Host]*st{a: {true, 0}, b: {true, 0}}
+	prevA := true
+	for tick := 0; tick < 5; tick++ {
+		okA := bits>>uint(tick)&1 == 1
+		okB := !prevA
+		prevA = okA
+		chk.next[a.Addr], chk.next[b.Addr] = okA, okB
+		sched.AdvanceTime(int64(time.Second))
+		sched.WaitQuiescent()
+		for h, ok := range map[*hostpkg.Host]bool{a: okA, b: okB} {
+			s := state[h]
+			if ok != s.healthy {
+				s.run++
+			} else {
+				s.run = 0
+			}
+			want := s.healthy
+			if s.run > int(thr) {
+				want = !s.healthy
+			}
+			if h.IsHealthy() != want {
+				sched.Fail("monitor-loop-flag-differs-from-hysteresis-rule", fmt.Sprintf("threshold %d outcomes %05b tick %d host %s: flag %v, rule says %v (run %d)", thr, bits, tick, h.Addr, h.IsHealthy(), want, s.run))
+			}
+			if want != s.healthy {
+				s.healthy, s.run = want, 0
+			}
+		}
+		usable := map[string]bool{}
+		for _, h := range set.Healthy() {
+			usable[h.Addr] = true
+		}
+		for h, s := range state {
+			if usable[h.Addr] != s.healthy {
+				sched.Fail("monitor-loop-usable-view-differs-from-flags", fmt.Sprintf("threshold %d outcomes %05b tick %d host %s", thr, bits, tick, h.Addr))
+			}
+		}
+	}
+	stopped := false
+	sched.GoNamed("stopper", func() { m.Stop(); stopped = true })
+	sched.WaitQuiescent()
+	if !stopped {
+		sched.Fail("monitor-stop-never-returns", "")
+	}
+	sched.SetOutcome(fmt.Sprintf("thr=%d", thr))
+}
+
+func init() {
+	sched.Register(&sched.Scenario{Name: "C15/monitor-loop", Setup: func(tier string) (sched.Config, func()) {
+		b := sched.Bounds{P: 0, F: 1}
+		if tier == "thorough" {
+			b = sched.Bounds{P: 1, F: 1, Sel: 1}
+		}
+		return sched.Config{Bounds: b, Iterative: true, MaxSteps: 100000}, c15loopBody
+	}})
+}
